@@ -5,6 +5,8 @@ Property theorems only (helpers: Proofs/Lemmas/C18*.lean).
 import Proofs.Lemmas.C18Range
 import Proofs.Lemmas.C18Date
 import Proofs.Lemmas.C18Series
+import Proofs.Lemmas.C18Order
+import Proofs.Lemmas.C18Build
 
 namespace C18
 open Series.Boot Series Series.Date
@@ -257,5 +259,66 @@ theorem axes_order_independent (env : Env) (ho : TotalOrder env.le) (it1 it2 : I
 
 example : Iter.id.Valid := ⟨fun _ => List.Perm.refl _, fun _ => List.Perm.refl _, fun _ => List.Perm.refl _⟩
 example : Iter.rev.Valid := ⟨fun l => List.reverse_perm l, fun l => List.reverse_perm l, fun l => List.reverse_perm l⟩
+
+/-- the environment the driver runs (Go string order) satisfies the order hypotheses above -/
+example (norm : Bytes → Option Bytes) : TotalOrder ({ norm := norm, le := bytesLe } : Env).le := bytesLe_totalOrder
+example (norm : Bytes → Option Bytes) : StrictOrder ({ norm := norm, le := bytesLe } : Env).lt :=
+  strictOrder_of_total _ bytesLe_totalOrder
+
+/-- **cells_hold_exactly_matching_measurements** — after `Add`ing any sequence of measurements,
+the numerator cell of (unit, table, benchmark, experiment, numerator hash) holds exactly the values
+of the measurements whose unit, table keys, benchmark, experiment, role and hash match — no more,
+no fewer, in insertion order — and the baseline cell of (unit, table, benchmark, experiment)
+exactly the denominator-role measurements of that trial together with the denominator hash of the
+first of them (`Spec.Series.trialBase`, the definition the specification uses). -/
+theorem cells_hold_exactly_matching_measurements (o : Opts) (evs : List Ev) (k : TrialKey) (h : Bytes) :
+    (alookup (k, h) (build o evs).tests =
+      (match evs.filter (fun e => !e.isDen o && e.isNum o && decide ((k, h) = (e.trial, e.nh))) with
+       | [] => none
+       | l => some (l.map (·.val)))) ∧
+    alookup k (build o evs).base = Spec.Series.trialBase o evs k := by
+  constructor
+  · exact tests_exact o evs (k, h)
+  · rw [base_exact]; rfl
+
+/-- **cells_insertion_order_independent** — the multiset of values of every numerator cell and of
+every baseline cell does not depend on the order in which the measurements were added.
+(Together with `series_order_independent_partial` this leaves, for the full
+`series_order_independent`, the two bookkeeping fields that *are* insertion-order dependent on
+ill-formed data — the baseline hash (first denominator wins, W2) and hashToOrder (last cell-creating
+numerator wins, W1) — and the assembly step from cells to points; see the GAP note there.) -/
+theorem cells_insertion_order_independent (o : Opts) (evs1 evs2 : List Ev) (hp : evs1.Perm evs2) :
+    (∀ key, (alookup key (build o evs1).tests).map sortBits = (alookup key (build o evs2).tests).map sortBits) ∧
+    (∀ k, (alookup k (build o evs1).base).map (fun b => sortBits b.2) =
+          (alookup k (build o evs2).base).map (fun b => sortBits b.2)) := by
+  constructor
+  · intro key
+    rw [tests_exact, tests_exact]
+    have p := hp.filter (hitsTest o key)
+    cases h1 : evs1.filter (hitsTest o key) with
+    | nil =>
+      rw [h1] at p
+      rw [p.symm.eq_nil]
+    | cons x l =>
+      cases h2 : evs2.filter (hitsTest o key) with
+      | nil => rw [h1, h2] at p; exact absurd p.length_eq (by simp)
+      | cons y l' =>
+        rw [h1, h2] at p
+        simp only [Option.map_some]
+        rw [sortBits_perm (p.map _)]
+  · intro k
+    rw [base_exact, base_exact]
+    have p := hp.filter (hitsBase o k)
+    cases h1 : evs1.filter (hitsBase o k) with
+    | nil =>
+      rw [h1] at p
+      rw [p.symm.eq_nil]
+    | cons x l =>
+      cases h2 : evs2.filter (hitsBase o k) with
+      | nil => rw [h1, h2] at p; exact absurd p.length_eq (by simp)
+      | cons y l' =>
+        rw [h1, h2] at p
+        simp only [Option.map_some]
+        rw [sortBits_perm (p.map _)]
 
 end C18
